@@ -623,8 +623,15 @@ pub fn run_c17(ctx: &Ctx) -> Report {
                                 let responded = forbidden && evs.iter().any(|e| matches!(e, Ev::Send { .. }));
                                 let after = session_view(&mut c);
                                 let dafter = c.digest();
+                                // "reported as a protocol error": the error kind, and what the library tells the peer about it
+                                // (judged for the second handshake packet, which the statement calls a protocol error by name; a type
+                                // nibble that is no packet kind at all may as well be reported as malformed)
+                                let wrong_kind = established_handshake && !empty_body && evs.iter().any(|e| matches!(e, Ev::Error(k) if k != "ProtocolError"));
+                                let wrong_code = evs.iter().find_map(|e| if let Ev::Send { pkt: Pkt::Disconnect { code, .. }, .. } = e { Some(*code) } else { None }).filter(|c| established_handshake && !empty_body && *c != Some(0x82));
                                 if !has_err || delivered || responded {
                                     rep.violate(fail("C17", rule, format!("role={:?};ver={:?};status={:?};type={};err={};delivered={};responded={}", role, ver, st, ty, has_err, delivered, responded), format!("{}: events {}", name, evs_short(&evs)), witness.clone()));
+                                } else if wrong_kind || wrong_code.is_some() {
+                                    rep.violate(fail("C17", rule, format!("role={:?};ver={:?};status={:?};type={};reported_as_other_error=1", role, ver, st, ty), format!("{}: not reported as a protocol error (error events / DISCONNECT reason code): {}", name, evs_short(&evs)), witness.clone()));
                                 } else if before != after {
                                     rep.violate(fail("C17", rule, format!("role={:?};ver={:?};status={:?};type={};session_changed=1", role, ver, st, ty), format!("{}: session state changed: {} -> {}", name, before, after), witness.clone()));
                                 } else if forbidden && dbefore != dafter {
@@ -695,8 +702,12 @@ pub fn run_c17(ctx: &Ctx) -> Report {
                         Pkt::Connack { code, .. } => if *code == 0 { "success" } else { "failure" },
                         _ => "connect",
                     };
+                    let wrong_kind = evs.iter().any(|e| matches!(e, Ev::Error(k) if k != "ProtocolError"));
+                    let wrong_code = evs.iter().find_map(|e| if let Ev::Send { pkt: Pkt::Disconnect { code, .. }, .. } = e { Some(*code) } else { None }).filter(|c| *c != Some(0x82));
                     if !has_err || delivered {
                         rep.violate(fail("C17", rule, format!("role={:?};ver={:?};variant={};err={};delivered={}", role, ver, code_class, has_err, delivered), format!("{}: events {}", name, evs_short(&evs)), witness));
+                    } else if wrong_kind || wrong_code.is_some() {
+                        rep.violate(fail("C17", rule, format!("role={:?};ver={:?};variant={};reported_as_other_error=1", role, ver, code_class), format!("{}: not reported as a protocol error (error events / DISCONNECT reason code): {}", name, evs_short(&evs)), witness));
                     } else if before != after {
                         rep.violate(fail("C17", rule, format!("role={:?};ver={:?};variant={};session_changed=1", role, ver, code_class), format!("{}: session state changed: {} -> {}", name, before, after), witness));
                     }
